@@ -310,6 +310,134 @@ theorem C01_block_of_lines (cfg : Cfg) (S Rp : List Str) (hp : cfg.pos = false) 
   simp only [finishState, hpd, hc, Bool.false_eq_true, if_false, hd]
   simp [initState, hp, hc]
 
+/-! ### one level of a document: keyword lines, singleton blocks and runs of repeatable blocks -/
+
+/-- the items `composite` receives for the entries of a dictionary written in dictionary order (children already read):
+a keyword line per simple entry, one block per singleton entry, the blocks of a list entry one after the other -/
+inductive EntriesOf (S Rp : List Str) : List R → Fields → Prop
+  | nil : EntriesOf S Rp [] []
+  | line (kvs : List (Str × AV)) (k : Str) (v p : J) (items : List R) (d : Fields) :
+      attrParts kvs = .ok (k, v, p) → (k ≠ s%"config" ∧ k ≠ s%"points" ∧ Rp.contains k = false) →
+      EntriesOf S Rp items d → EntriesOf S Rp (.adict kvs :: items) ((k, v) :: d)
+  | single (k : Str) (sub : Fields) (items : List R) (d : Fields) :
+      lookup s%"__type__" sub = some (.str k) → S.contains k = true → underscored k = false →
+      EntriesOf S Rp items d → EntriesOf S Rp (.cdict sub :: items) ((k, .dict sub) :: d)
+  | many (t : Str) (subs : List Fields) (items : List R) (d : Fields) :
+      subs ≠ [] → (∀ sub ∈ subs, lookup s%"__type__" sub = some (.str t)) → S.contains t = false → underscored t = false →
+      EntriesOf S Rp items d → EntriesOf S Rp (subs.map .cdict ++ items) ((plural t, .list (subs.map .dict)) :: d)
+
+theorem lookup_append_fresh (k : Str) (v : J) : (base : Fields) → k ∉ keys base → lookup k (base ++ [(k, v)]) = some v
+  | [], _ => by simp [lookup]
+  | (a, b) :: r, h => by
+    simp only [keys_cons, List.mem_cons, not_or] at h
+    simp only [List.cons_append, lookup, Ne.symm h.1, if_false]
+    exact lookup_append_fresh k v r h.2
+
+theorem setKey_append_fresh (k : Str) (v w : J) : (base : Fields) → k ∉ keys base →
+    setKey k w (base ++ [(k, v)]) = base ++ [(k, w)]
+  | [], _ => by simp [setKey]
+  | (a, b) :: r, h => by
+    simp only [keys_cons, List.mem_cons, not_or] at h
+    simp only [List.cons_append, setKey, Ne.symm h.1, if_false, setKey_append_fresh k v w r h.2]
+
+/-- a run of repeatable blocks of one type keeps extending the list under the plural key, in order -/
+theorem fold_blocks (cfg : Cfg) (S Rp : List Str) (t : Str) (hS : S.contains t = false) (hu : underscored t = false) :
+    (subs : List Fields) → (∀ sub ∈ subs, lookup s%"__type__" sub = some (.str t)) →
+    ∀ (st : CState) (base : Fields) (xs : List J), st.d = base ++ [(plural t, .list xs)] → plural t ∉ keys base →
+    ∃ st', (subs.map R.cdict).foldlM (compositeItem cfg S Rp) st = .ok st' ∧
+      st'.d = base ++ [(plural t, .list (xs ++ subs.map .dict))] ∧ st'.pd = st.pd
+  | [], _, st, base, xs, hd, _ => ⟨st, rfl, by simp [hd], rfl⟩
+  | sub :: r, hall, st, base, xs, hd, hfresh => by
+    have hty := hall sub (by simp)
+    have hstep : compositeItem cfg S Rp st (.cdict sub) =
+        .ok { st with d := base ++ [(plural t, .list (xs ++ [.dict sub]))] } := by
+      simp only [compositeItem, blockItem, hty, hu, hS, Bool.false_eq_true, if_false, appendTo, hd,
+        lookup_append_fresh _ _ base hfresh, setKey_append_fresh _ _ _ base hfresh]
+    obtain ⟨st', hf, hd', hp'⟩ := fold_blocks cfg S Rp t hS hu r (fun x hx => hall x (by simp [hx]))
+      { st with d := base ++ [(plural t, .list (xs ++ [.dict sub]))] } base (xs ++ [.dict sub]) rfl hfresh
+    refine ⟨st', ?_, ?_, hp'⟩
+    · simp only [List.map_cons, List.foldlM_cons, hstep, bind, Except.bind]; exact hf
+    · rw [hd']; simp
+
+theorem fresh_after (k : Str) (v : J) (acc d : Fields) (hfresh : ∀ kv ∈ (k, v) :: d, kv.1 ∉ keys acc)
+    (hnd : (keys ((k, v) :: d)).Nodup) : ∀ kv ∈ d, kv.1 ∉ keys (acc ++ [(k, v)]) := by
+  intro kv hkv
+  simp only [keys_cons, List.nodup_cons] at hnd
+  simp only [keys_append, keys_cons, keys_nil, List.mem_append, List.mem_singleton, not_or]
+  refine ⟨hfresh kv (by simp [hkv]), ?_⟩
+  intro e
+  exact hnd.1 (by rw [← e]; exact List.mem_map_of_mem (f := Prod.fst) hkv)
+
+theorem fold_entries (cfg : Cfg) (S Rp : List Str) (hc : cfg.com = false) :
+    (items : List R) → (d : Fields) → EntriesOf S Rp items d →
+    ∀ (st : CState), st.pd = none → (∀ kv ∈ d, kv.1 ∉ keys st.d) → (keys d).Nodup →
+    ∃ st', items.foldlM (compositeItem cfg S Rp) st = .ok st' ∧ st'.d = st.d ++ d ∧ st'.pd = none
+  | _, _, .nil, st, hpd, _, _ => ⟨st, rfl, by simp, hpd⟩
+  | _, _, .line kvs k v p items d hparts hk hrest, st, hpd, hfresh, hnd => by
+    have hds : dataStep Rp k v st.d = .ok (setKey k v st.d) := by
+      unfold dataStep
+      rw [if_neg hk.1, if_neg hk.2.1, hk.2.2]; rfl
+    have hnew : k ∉ keys st.d := hfresh (k, v) (by simp)
+    have hstep : compositeItem cfg S Rp st (.adict kvs) =
+        .ok { d := st.d ++ [(k, v)], pd := none, cd := comStep cfg Rp k (attrComments kvs) st.cd } := by
+      simp only [compositeItem, hparts, attrItem, hds, hpd, setKey_of_not_mem k v st.d hnew]
+    obtain ⟨st', hf, hd, hp'⟩ := fold_entries cfg S Rp hc items d hrest
+      { d := st.d ++ [(k, v)], pd := none, cd := comStep cfg Rp k (attrComments kvs) st.cd } rfl
+      (fresh_after k v st.d d hfresh hnd) (by simp only [keys_cons, List.nodup_cons] at hnd; exact hnd.2)
+    refine ⟨st', ?_, ?_, hp'⟩
+    · simp only [List.foldlM_cons, hstep, bind, Except.bind]; exact hf
+    · rw [hd]; simp
+  | _, _, .single k sub items d hty hS hu hrest, st, hpd, hfresh, hnd => by
+    have hnew : k ∉ keys st.d := hfresh (k, .dict sub) (by simp)
+    have hstep : compositeItem cfg S Rp st (.cdict sub) = .ok { st with d := st.d ++ [(k, .dict sub)] } := by
+      simp only [compositeItem, blockItem, hty, hu, hS, Bool.false_eq_true, if_false, if_true,
+        setKey_of_not_mem k (.dict sub) st.d hnew]
+    obtain ⟨st', hf, hd, hp'⟩ := fold_entries cfg S Rp hc items d hrest
+      { st with d := st.d ++ [(k, .dict sub)] } hpd
+      (fresh_after k (.dict sub) st.d d hfresh hnd) (by simp only [keys_cons, List.nodup_cons] at hnd; exact hnd.2)
+    refine ⟨st', ?_, ?_, hp'⟩
+    · simp only [List.foldlM_cons, hstep, bind, Except.bind]; exact hf
+    · rw [hd]; simp
+  | _, _, .many t subs items d hne hall hS hu hrest, st, hpd, hfresh, hnd => by
+    have hnew : plural t ∉ keys st.d := hfresh (plural t, .list (subs.map .dict)) (by simp)
+    cases subs with
+    | nil => exact absurd rfl hne
+    | cons sub r =>
+      have hty := hall sub (by simp)
+      have hl : lookup (plural t) st.d = none := (lookup_none_iff _ _).mpr hnew
+      have hstep : compositeItem cfg S Rp st (.cdict sub) = .ok { st with d := st.d ++ [(plural t, .list [.dict sub])] } := by
+        simp only [compositeItem, blockItem, hty, hu, hS, Bool.false_eq_true, if_false, appendTo, hl,
+          setKey_of_not_mem _ _ st.d hnew]
+      obtain ⟨st1, hf1, hd1, hp1⟩ := fold_blocks cfg S Rp t hS hu r (fun x hx => hall x (by simp [hx]))
+        { st with d := st.d ++ [(plural t, .list [.dict sub])] } st.d [.dict sub] rfl hnew
+      have hd1' : st1.d = st.d ++ [(plural t, .list ((sub :: r).map .dict))] := by rw [hd1]; simp
+      obtain ⟨st', hf, hd, hp'⟩ := fold_entries cfg S Rp hc items d hrest st1 (by rw [hp1]; exact hpd)
+        (by rw [hd1']; exact fresh_after (plural t) _ st.d d hfresh hnd)
+        (by simp only [keys_cons, List.nodup_cons] at hnd; exact hnd.2)
+      refine ⟨st', ?_, ?_, hp'⟩
+      · simp only [List.map_cons, List.cons_append, List.foldlM_cons, hstep, bind, Except.bind, List.foldlM_append]
+        rw [hf1]; exact hf
+      · rw [hd, hd1']; simp
+
+/-- **C01_level_roundtrip** — one level of a document, plain load: when `composite` receives, in dictionary order, a keyword
+line for every simple entry, the block of every singleton entry and the blocks of every list entry one after the other
+(what the printer writes for a dictionary `__type__ :: d`, with the children already read back), it rebuilds exactly
+`__type__ :: d` — for every number and mixture of entries, given distinct keys -/
+theorem C01_level_roundtrip (cfg : Cfg) (S Rp : List Str) (hp : cfg.pos = false) (hc : cfg.com = false)
+    (keyTok : Tok) (name : Str) (hname : valLower keyTok = .ok name)
+    (items : List R) (d : Fields) (he : EntriesOf S Rp items d)
+    (hty : ∀ kv ∈ d, kv.1 ≠ s%"__type__") (hnd : (keys d).Nodup) :
+    compositeBody cfg S Rp keyTok items = .ok (.cdict ((s%"__type__", .str name) :: d)) := by
+  unfold compositeBody
+  simp only [hname]
+  obtain ⟨st', hf, hd, hpd⟩ := fold_entries cfg S Rp hc items d he (initState cfg name keyTok)
+    (by simp [initState, hp]) (by
+      intro kv hkv
+      simp [initState, hp, hc, hty kv hkv]) hnd
+  rw [hf]
+  simp only [finishState, hpd, hc, Bool.false_eq_true, if_false, hd]
+  simp [initState, hp, hc]
+
 /-! ### key/value blocks (METADATA, VALIDATION, VALUES, CONNECTIONOPTIONS) -/
 
 /-- what the `string_pair` call-back hands on for the line `"key" "value"` the printer writes -/
